@@ -203,10 +203,16 @@ func execute(r *core.Run, c *Case) {
 			} else {
 				// the signer is used, the result is rejected afterwards
 				req, rs = mkReq("F", time.Date(2010, 1, 1, 0, 0, 0, 0, time.UTC), payloadOf("F")) // before the leaf's NotBefore
-				if c.Remote && len(c.Ops)%2 == 0 {
+				if c.Remote && i%3 == 1 {
 					// variant: remote signer hands back a chain for another key
 					req.SigningTime = sims.SignTime
 					rs.Chain = fx.other.Certs
+				}
+				if c.Remote && i%3 == 2 {
+					// variant: the signer declares (and signs for) another key
+					// spec than its chain's leaf has
+					req.SigningTime = sims.SignTime
+					rs.Spec = sims.KeySpecOf("p384")
 				}
 			}
 			var raw []byte
